@@ -419,40 +419,68 @@ def State.init (init : Nat → Disp) : State :=
 
 /-! ## Running traps at a command boundary (`yash-semantics/src/trap.rs`, `trap/signal.rs`) -/
 
-/-- what a trap body does to `$?`: the new exit status and whether it ended in a `Break(divert)`;
-    `interrupt` tells `Divert::Interrupt` apart from the other diverts -/
+/-- `semantics::Divert` as far as trap bodies are concerned (`other` = `Continue`/`Break`/`Abort`) -/
+inductive Divert where
+  | ret (st : Option Int)
+  | interrupt (st : Option Int)
+  | exit (st : Option Int)
+  | other
+  deriving DecidableEq, Repr
+
+/-- what a trap body does: the `$?` it leaves and the `Break(divert)` it ends in, if any -/
 structure BodyResult where
   exit : Int
-  divert : Bool := false
-  interrupt : Bool := false
+  divert : Option Divert := none
+
+/-- a trap body: command text, `$?` on entry and the trap set on entry ↦ outcome and the trap set
+    it leaves (a body may itself run `trap`) -/
+abbrev Body := Nat → Int → TrapMap → BodyResult × TrapMap
+
+/-- result of one `run_traps_for_caught_signals` -/
+structure RunResult where
+  traps : TrapMap
+  exit : Int
+  /-- `(signal, command)` of the bodies run, in order -/
+  runs : List (Nat × Nat)
+  /-- the `Break(divert)` the function returned with -/
+  divert : Option Divert := none
 
 /-- `run_trap`: `$?` is saved before and restored after the body unless the body ends in
-    `Divert::Interrupt` -/
-def runTrap (body : Nat → Int → BodyResult) (cmd : Nat) (exit : Int) : Int × Bool :=
-  let r := body cmd exit
-  if r.divert = true ∧ r.interrupt = true then (r.exit, true)
-  else (exit, r.divert)
+    `Divert::Interrupt` (then `$?` stays and `Interrupt(Some(_))` is updated to it) -/
+def runTrap (body : Body) (cmd : Nat) (exit : Int) (t : TrapMap) : Int × Option Divert × TrapMap :=
+  let r := body cmd exit t
+  match r.1.divert with
+  | some (.interrupt st) => (r.1.exit, some (.interrupt (st.map fun _ => r.1.exit)), r.2)
+  | d => (exit, d, r.2)
 
 /-- the `while let Some(..) = env.traps.take_caught_signal()` loop of
-    `run_traps_for_caught_signals`; `runs` collects `(signal, command)` of the bodies run -/
-def drain (body : Nat → Int → BodyResult) : Nat → TrapMap → Int → List (Nat × Nat) → TrapMap × Int × List (Nat × Nat)
-  | 0, t, exit, runs => (t, exit, runs)
+    `run_traps_for_caught_signals`: ONE caught signal is taken, its action run, and a divert leaves
+    the function at once (`run_trap(..).await?`) with every other caught signal still pending. -/
+def drain (body : Body) : Nat → TrapMap → Int → List (Nat × Nat) → RunResult
+  | 0, t, exit, runs => { traps := t, exit := exit, runs := runs }
   | fuel + 1, t, exit, runs =>
     match (takeCaughtSignal t).2 with
-    | none => (t, exit, runs)
+    | none => { traps := t, exit := exit, runs := runs }
     | some (sig, ts) =>
       let t' := (takeCaughtSignal t).1
       match ts.action with
       | .command c =>
-        let r := runTrap body c exit
-        if r.2 then (t', r.1, runs ++ [(sig, c)])
-        else drain body fuel t' r.1 (runs ++ [(sig, c)])
+        let r := runTrap body c exit t'
+        match r.2.1 with
+        | some d => { traps := r.2.2, exit := r.1, runs := runs ++ [(sig, c)], divert := some d }
+        | none => drain body fuel r.2.2 r.1 (runs ++ [(sig, c)])
       | _ => drain body fuel t' exit runs
 
 /-- `run_traps_for_caught_signals` after `poll_signals` (without the SIGINT-interrupt shortcut of
     interactive shells): nothing runs while a signal trap is running in this shell (`in_trap`). -/
-def runTrapsForCaughtSignals (body : Nat → Int → BodyResult) (inTrap : Bool) (t : TrapMap) (exit : Int)
-    : TrapMap × Int × List (Nat × Nat) :=
-  if inTrap then (t, exit, []) else drain body (t.length + 1) t exit []
+def runTrapsForCaughtSignals (body : Body) (inTrap : Bool) (t : TrapMap) (exit : Int) : RunResult :=
+  if inTrap then { traps := t, exit := exit, runs := [] } else drain body (t.length + 1) t exit []
+
+/-- successive command boundaries (`$?` at each boundary is whatever the commands in between left) -/
+def boundaries (body : Body) : List Int → TrapMap → List (Nat × Nat) → TrapMap × List (Nat × Nat)
+  | [], t, runs => (t, runs)
+  | e :: es, t, runs =>
+    let r := runTrapsForCaughtSignals body false t e
+    boundaries body es r.traps (runs ++ r.runs)
 
 end YashModel.Trap
